@@ -136,6 +136,55 @@ fn pow2(n: u32) -> Word {
     o
 }
 
+/// Amount words above 2^127-1.  Codes below 240 are the power of two 2^p; the others are the
+/// words a narrowing conversion could mistake for something in range: the 256-bit two's
+/// complement forms of negative 128-bit values (all ones = -1, ... , sign-extended i128::MIN),
+/// u128::MAX, 2^127 plus low bits, and high halves that are all ones or a single low bit.
+fn amount_word(p: u8) -> Word {
+    let mut o = [0u8; 32];
+    match p {
+        0..=239 => return pow2(p as u32),
+        240 => o = [0xff; 32],
+        241 => {
+            o = [0xff; 32];
+            for b in o[16..].iter_mut() {
+                *b = 0;
+            }
+            o[16] = 0x80;
+        }
+        242 => {
+            o = [0xff; 32];
+            o[31] = 0xfe;
+        }
+        243 => {
+            for b in o[16..].iter_mut() {
+                *b = 0xff;
+            }
+        }
+        244 => {
+            o[16] = 0x80;
+            o[31] = 0x2a;
+        }
+        245 => {
+            for b in o[..16].iter_mut() {
+                *b = 0xff;
+            }
+            o[31] = 7;
+        }
+        246 => {
+            // sign-extended -(10^18)
+            let v = (-1_000_000_000_000_000_000i128).to_be_bytes();
+            o = [0xff; 32];
+            o[16..].copy_from_slice(&v);
+        }
+        _ => {
+            o[15] = 1;
+            o[31] = 1;
+        }
+    }
+    o
+}
+
 fn check_bytes(env: &Env, ctx: &mut Ctx, bytes: &[u8], what: &str) -> bool {
     match repo_decode(env, bytes) {
         Err(p) => ctx.check(false, &["C10"], "codec/decoder-crashed", || format!("{}: abi_decode panicked on {}: {}", what, hex::encode(bytes), p)),
@@ -205,7 +254,7 @@ impl World for WorldC {
                         5 => Mutation::Trailing(rng.below(96) as u8),
                         6 => Mutation::OuterTag(*rng.pick(&[0u32, 1, 2, 5, 255, 256, 65536])),
                         7 => Mutation::InnerTag(*rng.pick(&[2u32, 3, 4, 5, 255, 256])),
-                        8 => Mutation::AmountPow(*rng.pick(&[127u8, 128, 200, 255])),
+                        8 => Mutation::AmountPow(*rng.pick(&[127u8, 128, 129, 200, 254, 255, 240, 241, 242, 243, 244, 245, 246, 247])),
                         9 => Mutation::DecimalsWord(*rng.pick(&[256u32, 257, 65535, 1 << 31])),
                         10 => Mutation::HighBitsInTag,
                         11 => Mutation::InnerTrailing(rng.below(3) as u8),
@@ -281,7 +330,7 @@ impl World for WorldC {
                     match m {
                         Mutation::OuterTag(t) => outer_tag = w(*t as u128),
                         Mutation::InnerTag(t) => inner_tag = w(*t as u128),
-                        Mutation::AmountPow(p) => amount_w = Some(pow2(*p as u32)),
+                        Mutation::AmountPow(p) => amount_w = Some(amount_word(*p)),
                         Mutation::DecimalsWord(d) => dec_w = Some(w(*d as u128)),
                         Mutation::HighBitsInTag => outer_tag[0] = 0x80,
                         _ => {}
